@@ -39,39 +39,39 @@ const (
 
 // G is one managed goroutine.
 type G struct {
-	ID         int
-	Name       string
-	state      gstate
-	kind       vh.Kind
-	obj        any
-	commit     chan bool // channel the goroutine is blocked on (committed), nil if none
-	phase      int       // for channel ops: 0 = at the pre-emption point, 1 = committed
-	wake       chan struct{}
-	kids       int // children announced by Spawn that have not entered yet
-	cseq       int // commit sequence number (FIFO order of blocked channel waiters)
-	wasBlocked bool
+	ID          int
+	Name        string
+	state       gstate
+	kind        vh.Kind
+	obj         any
+	commit      chan bool // channel the goroutine is blocked on (committed), nil if none
+	phase       int       // for channel ops: 0 = at the pre-emption point, 1 = committed
+	wake        chan struct{}
+	kids        int // children announced by Spawn that have not entered yet
+	cseq        int // commit sequence number (FIFO order of blocked channel waiters)
+	wasBlocked  bool
 	EverBlocked bool
-	Panic      any
+	Panic       any
 }
 
 type Sched struct {
-	mu       sync.Mutex
-	byGoid   map[int64]*G
-	gs       []*G
-	expected int
-	event    chan struct{}
-	held     map[*sync.Mutex]*G
-	closed   map[chan bool]bool
-	src      core.Source
-	split    bool
-	cond     *sync.Cond
-	adopter  *G
-	nhelpers int
-	cseq     int
-	Steps    int
-	Trace    []string
+	mu        sync.Mutex
+	byGoid    map[int64]*G
+	gs        []*G
+	expected  int
+	event     chan struct{}
+	held      map[*sync.Mutex]*G
+	closed    map[chan bool]bool
+	src       core.Source
+	split     bool
+	cond      *sync.Cond
+	adopter   *G
+	nhelpers  int
+	cseq      int
+	Steps     int
+	Trace     []string
 	KeepTrace bool
-	MaxSteps int
+	MaxSteps  int
 }
 
 // New creates a scheduler that draws its decisions from src.  With split, every
@@ -209,18 +209,17 @@ type Blocked struct {
 }
 
 type Result struct {
-	Deadlock bool      `json:"deadlock"`
-	Blocked  []Blocked `json:"blocked,omitempty"`
-	Steps    int       `json:"steps"`
-	Aborted  string    `json:"aborted,omitempty"`
-	AnyBlocked bool    `json:"any_blocked"` // some goroutine was blocked (committed) at least once
+	Deadlock   bool      `json:"deadlock"`
+	Blocked    []Blocked `json:"blocked,omitempty"`
+	Steps      int       `json:"steps"`
+	Aborted    string    `json:"aborted,omitempty"`
+	AnyBlocked bool      `json:"any_blocked"` // some goroutine was blocked (committed) at least once
 }
 
 var kindNames = map[vh.Kind]string{vh.Lock: "Lock", vh.Unlock: "Unlock", vh.Send: "Send", vh.Recv: "Recv", vh.Close: "Close", vh.Spawn: "Spawn", vh.Enter: "Enter", vh.Exit: "Exit"}
 
 // Run drives all managed goroutines to completion or deadlock.
-func (s *Sched) Run() Result {
-	var res Result
+func (s *Sched) Run() (res Result) {
 	defer func() {
 		for _, g := range s.gs {
 			if g.EverBlocked {
